@@ -1,45 +1,202 @@
-"""C15 — sense-aware operations (DESIGN §5 C15)."""
+"""C15 — sense-aware operations (DESIGN §5 C15).
+
+Written against the normal form (`VIEW = 'norm'`): adaptor chains with closures are explicit loops, so
+`filter_map(|(id, ok)| ok.then_some(*id))`, `filter(..).map(..)` and a `for` with an `if` are the same
+thing, and so are `map(..).collect::<Result<Vec<_>>>()?` and a `for` loop that pushes.
+
+Decisions that depend on *which way a test goes* are taken by probing: the rule names the reads /
+comparisons that matter (the flag of a sample, the comparison of a candidate with the incumbent, the
+test of the sense), assumes a value for them and asks a path-sensitive reachability (`reach_x`:
+constants, `!`, `bool::then_some`, Ok/Err/Some/None through `?`) what can still be reached.  That is
+independent of whether the test is written `if c {A} else {B}`, `if !c {B} else {A}`, an early
+`return`, a `match`, or a `matches!`.
+"""
 from .common import *
 
+VIEW = 'norm'
+
 INST = 'v1::Instance'; SS = 'v1::SampleSet'
+SENSE_RE = r'instance::Sense$'
 
 
+# ------------------------------------------------------------------------- path-sensitive reachability
+def _cv(o):
+    return o['v'].replace('const ', '').strip() if o['k'] == 'const' else None
+
+
+OK_LIKE = ('Result::Ok', 'Option::None', 'ControlFlow::Continue')       # variant index 0
+ERR_LIKE = ('Result::Err', 'Option::Some', 'ControlFlow::Break')        # variant index 1
+
+
+def reach_x(body, starts, stop=(), assume_stmt=None, assume_call=None):
+    """forward reachability that follows only the feasible side of a switch when the switched value is
+    known on the path.  Known values: bool constants and their copies / negations; the variant of a
+    Result / Option / ControlFlow built on the path (aggregate, `from_residual`, `Try::branch` of a
+    known variant, `bool::then_some` of a known bool) and discriminants read from it; plus the assumed
+    results of the given statements (assume_stmt: {id(stmt): value}) and calls (assume_call: {bb: value})."""
+    assume_stmt = assume_stmt or {}; assume_call = assume_call or {}
+    seen = set(); out = set(); work = [(s, frozenset()) for s in starts if s not in stop]
+    plain = lambda o: o is not None and o['k'] in ('copy', 'move') and not o['pl']['p']
+    while work:
+        bi, env = work.pop()
+        if (bi, env) in seen: continue
+        seen.add((bi, env)); out.add(bi)
+        if len(seen) > 60000: return body.reach(starts, stop)       # give up: plain over-approximation
+        e = dict(env)
+        blk = body.blocks[bi]
+        for st in blk['st']:
+            if 'dst' not in st: continue
+            d = st['dst']; rv = st['rv']
+            if rv['k'] == 'ref' and rv.get('mut') and not rv['pl']['p']: e.pop(rv['pl']['l'], None)
+            if d['p']:
+                if not (len(d['p']) >= 1 and d['p'][0] == '*'): e.pop(d['l'], None)     # partial overwrite of a tracked value
+                continue
+            o = (rv.get('ops') or [None])[0]
+            if id(st) in assume_stmt: e[d['l']] = assume_stmt[id(st)]
+            elif rv['k'] == 'use' and _cv(o) in ('true', 'false'): e[d['l']] = (_cv(o) == 'true')
+            elif rv['k'] == 'use' and plain(o) and o['pl']['l'] in e: e[d['l']] = e[o['pl']['l']]
+            elif rv['k'] == 'un' and rv['op'] == 'Not' and plain(o) and isinstance(e.get(o['pl']['l']), bool): e[d['l']] = not e[o['pl']['l']]
+            elif rv['k'] == 'agg' and rv['adt'].endswith(OK_LIKE): e[d['l']] = ('V', 0)
+            elif rv['k'] == 'agg' and rv['adt'].endswith(ERR_LIKE): e[d['l']] = ('V', 1)
+            elif rv['k'] == 'discr' and not rv['pl']['p'] and isinstance(e.get(rv['pl']['l']), tuple) and e[rv['pl']['l']][0] == 'V': e[d['l']] = ('D', e[rv['pl']['l']][1])
+            else: e.pop(d['l'], None)
+        t = blk['term']
+        succs = body.succ(bi)
+        if t['k'] == 'call':
+            if not t['dst']['p']:
+                dl = t['dst']['l']
+                nm = t['r'] or t['f']; a0 = t['args'][0] if t['args'] else None
+                item = (t.get('ri') or {}).get('item')
+                known = e.get(a0['pl']['l']) if plain(a0) else None
+                is_opt = nm.lstrip('<').startswith('std::option::Option')
+                if bi in assume_call: e[dl] = assume_call[bi]
+                elif T.NOT_CALL.search(nm) and isinstance(known, bool): e[dl] = not known
+                elif T.TRY_BRANCH.search(nm) and isinstance(known, tuple) and known[0] == 'V':
+                    e[dl] = ('V', (1 - known[1]) if is_opt else known[1])          # Some -> Continue, None -> Break ; Ok -> Continue, Err -> Break
+                elif item == 'from_residual' and T.FROM_RESIDUAL.search(nm): e[dl] = ('V', 0 if is_opt else 1)
+                elif re.search(r'bool>::then_some(::<.*>)?$', nm) and isinstance(known, bool): e[dl] = ('V', 1 if known else 0)
+                else: e.pop(dl, None)
+            else: e.pop(t['dst']['l'], None)
+        elif t['k'] == 'switch' and t['d']['k'] != 'const' and not t['d']['pl']['p'] and t['d']['pl']['l'] in e:
+            v = e[t['d']['pl']['l']]
+            v = (1 if v else 0) if isinstance(v, bool) else (v[1] if v[0] == 'D' else None)
+            if v is not None:
+                m = {val: tg for val, tg in t['ts']}
+                succs = [m.get(v, t['else'])]
+        fe = frozenset(e.items())
+        for s in succs:
+            if s in stop or body.blocks[s]['cleanup']: continue
+            work.append((s, fe))
+    return out
+
+
+class PathSensitive:
+    """a Body whose `reach` is path-sensitive (reach_x); lets the shared T-ERRFLOW template see that the
+    Err produced inside a normalised `collect::<Result<..>>` loop only takes the Break arm of the outer `?`"""
+    def __init__(self, body): self._b = body
+    def __getattr__(self, n): return getattr(self._b, n)
+    def reach(self, start, stop=()): return reach_x(self._b, start, stop)
+
+
+# ------------------------------------------------------------------------------------ shared helpers
+def sense_tests(ctx, body, src_pred=None):
+    """tests of a `Sense` value against the variant Minimize, in every spelling:
+         x == Sense::Minimize / x != Sense::Minimize     (PartialEq::eq / ne)
+         match x { Sense::Minimize => .., .. } / matches!(x, Sense::Minimize)   (switch on the discriminant)
+    returns [(site_bb, variant, [yes blocks], [no blocks], tested operand, switch_bb)]"""
+    out = []
+    for c in body.calls:
+        if c.item in ('eq', 'ne') and 'PartialEq' in (c.trait or '') and re.search(SENSE_RE, c.self_ty or ''):
+            vs = [enum_variant_of_operand(ctx, body, a) for a in c.args]
+            v = [x.split('::')[-1] for x in vs if x and 'Sense::' in x]
+            src = [a for a, x in zip(c.args, vs) if not (x and 'Sense::' in x)]
+            if not v or not src: continue
+            if src_pred is not None and not src_pred(ctx.S.slice_operand(body, src[0])): continue
+            for g in T.guards_from_call(body, c):
+                yes, no = (g.true_bb, g.false_bb) if c.item == 'eq' else (g.false_bb, g.true_bb)
+                out.append((c.bb, v[0], [yes], [no], src[0], g.switch_bb))
+    adt = ctx.F.adt('v1::instance::Sense')
+    names = {v['discr']: v['name'] for v in adt['variants']} if adt else {}
+    for bi, st in body.stmts():
+        rv = st['rv']
+        if rv['k'] == 'discr' and not st['dst']['p'] and re.search(SENSE_RE, body.locals[rv['pl']['l']].lstrip('&').strip()):
+            op = {'k': 'copy', 'pl': rv['pl']}
+            if src_pred is not None and not src_pred(ctx.S.slice_operand(body, op)): continue
+            for k3, b3, sw in body.uses.get(st['dst']['l'], ()):
+                if k3 != 'switch': continue
+                tg = {val: t for val, t in sw['ts']}
+                for val, t in sw['ts']:
+                    if val in names:
+                        others = [t2 for v2, t2 in sw['ts'] if v2 != val] + [sw['else']]
+                        out.append((b3, names[val], [t], [x for x in others if not body.is_panic_block(x)], op, b3))
+    return out
+
+
+def regions(body, t):
+    """blocks only reachable on the yes side / only on the no side of test `t` (until the test is taken
+    again: inside a loop both sides meet at the next iteration)"""
+    ry = T.reach_cp(body, t[2], stop={t[5]}); rn = T.reach_cp(body, t[3], stop={t[5]})
+    return ry - rn, rn - ry
+
+
+def item_fields(body, lo, op, depth=14):
+    """tuple components selected from the item of loop `lo` by an operand: [] = the item itself,
+    ['1'] = item.1, ... ; None if the operand is not (a projection / reference / copy of) the item.
+    `flag.then_some(v)` unwrapped is v."""
+    e = T.expr(body, op, depth=depth)
+    for _ in range(6):
+        if e[0] == 'call' and T.TRANSPARENT.search(T.strip_generics_tail(e[2])) and e[3]: e = e[3][0]; continue
+        if e[0] == 'proj' and e[1][0] == 'call' and e[1][1] == 'then_some' and len(e[1][3]) == 2 and all(T.WRAPPER_OWNER.search(a) for a, f in e[2]): e = e[1][3][1]; continue
+        break
+    if e[0] == 'call' and len(e) > 4 and e[4] == lo[0].bb: return []
+    if e[0] == 'proj' and e[1][0] == 'call' and len(e[1]) > 4 and e[1][4] == lo[0].bb:
+        return [f for a, f in e[2] if a == 'tuple']
+    return None
+
+
+def errflow_ps(ctx, rule, body, calls, what):
+    errflow_calls(ctx, rule, PathSensitive(body), calls, what)
+
+
+# --------------------------------------------------------------------------------- as_minimization_problem
 def min_rules(ctx):
     R = 'C15.min'
     b = ctx.method(R + '/anchor', INST, 'as_minimization_problem')
     if b is None: return
-    tests = []
-    for c in b.calls:
-        if c.item in ('eq', 'ne') and 'PartialEq' in (c.trait or '') and re.search(r'instance::Sense$', c.self_ty or ''):
-            vs = [enum_variant_of_operand(ctx, b, a) for a in c.args]
-            v = [x.split('::')[-1] for x in vs if x and 'Sense::' in x]
-            src = [a for a, x in zip(c.args, vs) if not (x and 'Sense::' in x)]
-            if v and src and ctx.S.slice_operand(b, src[0]).has_field(INST, 'sense'):
-                for g in T.guards_from_call(b, c): tests.append((c, v[0], g))
-    ctx.check(len(tests) == 1, R + '/sense-test', 'T-GUARD', b.name, 'expected one test of self.sense(), found %d' % len(tests), b.site())
-    if len(tests) != 1: return
-    c, variant, g = tests[0]
-    is_min_bb, other_bb = (g.true_bb, g.false_bb) if (c.item == 'eq') == (variant == 'Minimize') else (g.false_bb, g.true_bb)
-    minr = T.reach_cp(b, [is_min_bb]) - T.reach_cp(b, [other_bb]); maxr = T.reach_cp(b, [other_bb]) - T.reach_cp(b, [is_min_bb])
-    writes = [(bi, st) for bi, st in b.stmts() if st['dst']['p'] and st['dst']['l'] == 1 and fields_of_place(st['dst'])]
+    writes = [(bi, st) for bi, st in b.stmts() if st['dst']['p'] and st['dst']['l'] in T.copies_of(b, 1) and fields_of_place(st['dst'])]
+    tests = [t for t in sense_tests(ctx, b, lambda s: s.has_field(INST, 'sense')) if t[1] == 'Minimize']
+    # the test that decides: the one all writes are on the not-Minimize side of
+    chosen = None
+    for t in tests:
+        minr, maxr = regions(b, t)
+        if all(bi in maxr for bi, st in writes) or chosen is None: chosen = (t, minr, maxr)
+    ctx.check(chosen is not None, R + '/sense-test', 'T-GUARD', b.name, 'no test of self.sense() against Sense::Minimize', b.site())
+    if chosen is None: return
+    t, minr, maxr = chosen
+    is_min, other = t[2], t[3]
+    rets = set(b.return_blocks())
     mut_calls = [x for x in b.calls if any(a['k'] in ('copy', 'move') and '&mut' in b.locals[a['pl']['l']] for a in x.args)]
     ctx.check(not [bi for bi, st in writes if bi in minr] and not [x for x in mut_calls if x.bb in minr], R + '/minimize-is-untouched', 'T-BRANCHFX', b.name,
-              'a minimisation problem is modified (the conversion must be idempotent)', b.site(is_min_bb))
+              'a minimisation problem is modified (the conversion must be idempotent)', b.site(is_min[0]))
+    def every_other_path_passes(bbs):
+        return bool(bbs) and not any(reach_x(b, [o], stop=set(bbs)) & rets for o in other)      # path-sensitive: `matches!` leaves a bool behind
+    def at_most_once(bbs):
+        return not any(b.reach(b.succ(x)) & set(bbs) for x in bbs)
     sw = [(bi, st) for bi, st in writes if fields_of_place(st['dst']) == [(INST, 'sense')]]
     ow = [(bi, st) for bi, st in writes if fields_of_place(st['dst']) == [(INST, 'objective')]]
-    oks = False
+    oks = bool(sw)
     for bi, st in sw:
         s = ctx.S.slice_operand(b, st['rv']['ops'][0])
-        oks = bi in maxr and s.has_const(r'Sense::Minimize') and not s.has_const(r'Sense::Maximize') and T.must_pass(b, other_bb, set(b.return_blocks()), {bi})
-    ctx.check(len(sw) == 1 and oks, R + '/sense-becomes-minimize', 'T-CONST', b.name, 'sense is not set to Minimize on every path of a maximisation problem', b.site())
-    oko = False
+        oks = oks and bi in maxr and s.has_const(r'Sense::Minimize') and not s.has_const(r'Sense::Maximize')
+    ctx.check(oks and every_other_path_passes([bi for bi, st in sw]), R + '/sense-becomes-minimize', 'T-CONST', b.name, 'sense is not set to Minimize on every path of a maximisation problem', b.site())
+    oko = bool(ow)
     for bi, st in ow:
         ex = T.expr(b, st['rv']['ops'][0], depth=10)
-        negs = [x for x in T.expr_walk(ex) if x[0] == 'call' and x[1] == 'neg' and re.search(r'ops::Neg for v1::Function', x[2])]
-        if ex[0] == 'agg' and ex[1].endswith('Option::Some') and len(negs) == 1 and T.expr_has_call(negs[0][3][0], 'objective') and bi in maxr and T.must_pass(b, other_bb, set(b.return_blocks()), {bi}):
-            n_neg = len([x for x in T.expr_walk(ex) if x[0] == 'call' and x[1] == 'neg'])
-            oko = n_neg == 1
-    ctx.check(len(ow) == 1 and oko, R + '/objective-negated-once', 'T-BRANCHFX', b.name, 'objective is not replaced by Some(-objective()) exactly once on the maximisation path', b.site())
+        negs = [x for x in T.expr_walk(ex) if x[0] == 'call' and x[1] == 'neg']
+        oko = oko and (ex[0] == 'agg' and ex[1].endswith('Option::Some') and len(negs) == 1 and bool(re.search(r'ops::Neg for v1::Function', negs[0][2]))
+                       and T.expr_has_call(negs[0][3][0], 'objective') and bi in maxr)
+    ctx.check(oko and every_other_path_passes([bi for bi, st in ow]) and at_most_once([bi for bi, st in ow]), R + '/objective-negated-once', 'T-BRANCHFX', b.name,
+              'objective is not replaced by Some(-objective()) exactly once on the maximisation path', b.site())
     writes_only(ctx, R + '/only-sense-and-objective', b, {'sense', 'objective'})
     # the schema number behind Sense::Minimize
     adt = ctx.F.adt('v1::instance::Sense')
@@ -55,80 +212,284 @@ def min_rules(ctx):
         ctx.check(ok, R + '/function-neg', 'T-DELEG', nb.name, 'Neg for Function neither multiplies by -1 nor negates its payload', nb.site())
 
 
+# ------------------------------------------------------------------------------------------------ best
+# Who wins a comparison.  `smaller` = the candidate with the smaller objective is selected.
+#   selection call     comparator cmp(first, second)          selected
+#   min_by             cmp(a, b)   (natural)                  smaller
+#   min_by             cmp(b, a)   (reversed)                 larger
+#   max_by             cmp(a, b)                              larger
+#   max_by             cmp(b, a)                              smaller
+#   incumbent loop, replace the incumbent when
+#     cmp(candidate, incumbent).is_lt() / is_le()  |  candidate < incumbent  |  cmp(incumbent, candidate).is_gt() / is_ge()  |  incumbent > candidate     smaller
+#     the mirror images                                                                                                                                   larger
+#   (ties are not part of C15: any best sample is acceptable)
+CMP_ITEMS = ('total_cmp', 'partial_cmp', 'cmp')
+ORD_TESTS = {'is_lt': '<', 'is_le': '<', 'is_gt': '>', 'is_ge': '>'}
+BIN_TESTS = {'Lt': '<', 'Le': '<', 'Gt': '>', 'Ge': '>'}
+FLIP = {'smaller': 'larger', 'larger': 'smaller'}
+
+
+def by_sense(ctx, body, sites, tests):
+    """sites: [(bb, verdict)] -> {'min': verdict, 'max': verdict} according to the side of the Minimize test each site is on;
+    a site on neither side counts for both"""
+    out = {}
+    regs = [regions(body, t) for t in tests if t[1] == 'Minimize'] + [tuple(reversed(regions(body, t))) for t in tests if t[1] == 'Maximize']
+    for bb, v in sites:
+        sides = set()
+        for minr, maxr in regs:
+            if bb in minr: sides.add('min')
+            if bb in maxr: sides.add('max')
+        for s in (sides or {'min', 'max'}):
+            out[s] = v if out.get(s, v) == v else 'conflict'
+    return out
+
+
+def comparator_table(ctx, cb):
+    """min_by / max_by comparator closure (a = _2, b = _3): per sense, `natural` (cmp(a.1, b.1)) or `reversed`"""
+    sites = []
+    for x in cb.calls:
+        if x.item in CMP_ITEMS and len(x.args) == 2:
+            def side(op):
+                e = T.strip_wrappers(T.expr(cb, op))
+                pl = [y for y in T.expr_walk(e) if y[0] == 'place' and y[1] in (2, 3)]
+                return (pl[0][1] if pl else None, [f for a, f in T.expr_fields(e) if a == 'tuple'][-1:])
+            (i0, f0), (i1, f1) = side(x.args[0]), side(x.args[1])
+            if f0 == ['1'] and f1 == ['1'] and {i0, i1} == {2, 3}:
+                sites.append((x.bb, 'natural' if (i0, i1) == (2, 3) else 'reversed'))
+            else:
+                sites.append((x.bb, 'not-the-objective-values'))
+    return by_sense(ctx, cb, sites, sense_tests(ctx, cb)), bool(sites)
+
+
+def selection_by_call(ctx, R, b, sel):
+    """`candidates.min_by(cmp)` / `max_by(cmp)`"""
+    rows = {}; sense_ok = True
+    body_tests = sense_tests(ctx, b)
+    for sc in sel:
+        cls = [ctx.F.bodies.get(n) for n in ctx.S.slice_operand(b, sc.args[1]).closures]
+        cls = [x for x in cls if x is not None and x.argc == 3]
+        if len(cls) != 1:
+            ctx.bad(R + '/comparator', 'T-BRANCHFX', b.name, 'comparator closure of %s not found' % sc.item, b.site(sc.bb)); continue
+        cb = ctx.fn(cls[0])
+        ctx.ok(R + '/comparator', 'T-BRANCHFX', b.site(sc.bb))
+        tab, _ = comparator_table(ctx, cb)
+        sel_of = {'natural': 'smaller', 'reversed': 'larger'} if sc.item == 'min_by' else {'natural': 'larger', 'reversed': 'smaller'}
+        for side, v in by_sense(ctx, b, [(sc.bb, None)], body_tests).items():
+            if side in tab:
+                val = sel_of.get(tab[side], tab[side])
+                rows[side] = val if rows.get(side, val) == val else 'conflict'
+        # the sense compared is the sample set's own
+        s = ctx.S.slice_operand(b, sc.args[1])
+        sense_ok = sense_ok and (s.has_field(SS, 'sense') or any(ctx.S.slice_operand(b, t[4]).has_field(SS, 'sense') for t in body_tests))
+    return rows, sense_ok, [sc.bb for sc in sel]
+
+
+def incumbents(body, lo):
+    """locals holding `the best candidate so far` of loop lo: None before the loop, Some(..) assigned inside"""
+    blocks = lo[4]; out = []
+    for l in range(body.argc + 1, len(body.locals)):
+        ds = body.defs_of(l)
+        if len(ds) < 2: continue
+        nones = []; somes = []; ok = True
+        for k, bi, d in ds:
+            if k != 'stmt' or d['dst']['p']: ok = False; break
+            rv = d['rv']
+            if rv['k'] == 'use' and rv['ops'][0]['k'] in ('copy', 'move') and not rv['ops'][0]['pl']['p']:
+                td = body.defs_of(rv['ops'][0]['pl']['l'])
+                if len(td) == 1 and td[0][0] == 'stmt' and not td[0][2]['dst']['p']: rv = td[0][2]['rv']
+            if rv['k'] == 'agg' and rv['adt'].endswith('Option::None'): nones.append(bi)
+            elif rv['k'] == 'agg' and rv['adt'].endswith('Option::Some'): somes.append((bi, rv))
+            else: ok = False; break
+        if ok and nones and somes and all(bi not in blocks for bi in nones) and all(bi in blocks for bi, _ in somes):
+            out.append((l, nones, somes))
+    return out
+
+
+def selection_by_loop(ctx, R, b, lo, inc, somes):
+    """`for cand in candidates { if best.is_none() || better(cand, best) { best = Some(cand) } }`"""
+    nxt, header, some_bb, none_bb, blocks = lo
+    U = {bi for bi, rv in somes}
+    site = b.site(nxt.bb)
+    # what is stored is the candidate itself (id and objective of the same item)
+    stored = True
+    for bi, rv in somes:
+        e = T.expr(b, rv['ops'][0], depth=8)
+        if e[0] == 'agg' and e[1] == 'tuple' and len(rv['ops']) == 1:
+            pd = [d for d in b.defs_of(rv['ops'][0]['pl']['l'])] if rv['ops'][0]['k'] in ('copy', 'move') else []
+            comps = pd[0][2]['rv']['ops'] if len(pd) == 1 and pd[0][0] == 'stmt' and pd[0][2]['rv']['k'] == 'agg' else []
+            stored = stored and [item_fields(b, lo, o) for o in comps] == [['0'], ['1']]
+        else:
+            stored = stored and item_fields(b, lo, rv['ops'][0]) == []
+    ctx.check(stored, R + '/incumbent-is-candidate', 'T-CARRY', b.name, 'the incumbent is not replaced by the (id, objective) of the current candidate', site)
+    # comparisons candidate.1 <-> incumbent.1 and the bool made of them
+    def who(op):
+        f = item_fields(b, lo, op)
+        if f is not None: return ('cand', f)
+        e = T.strip_wrappers(T.expr(b, op))
+        if e[0] == 'place' and e[1] == inc: return ('inc', [f for a, f in e[2] if a == 'tuple'])
+        return (None, [])
+    sites = []; a_call = {}; a_stmt = {}
+    def verdict(x, y, rel):
+        if {x[0], y[0]} != {'cand', 'inc'} or x[1] != ['1'] or y[1] != ['1']: return 'not-the-objective-values'
+        cand_first = x[0] == 'cand'
+        return 'smaller' if (rel == '<') == cand_first else 'larger'
+    for c in b.calls:
+        if c.bb in blocks and c.item in CMP_ITEMS and len(c.args) == 2:
+            x, y = who(c.args[0]), who(c.args[1])
+            if x[0] is None and y[0] is None: continue
+            used = False
+            for kind, bi, u in b.uses.get(c.dst['l'], ()):
+                if kind == 'call' and u.item in ORD_TESTS and 'Ordering' in u.name:
+                    sites.append((u.bb, verdict(x, y, ORD_TESTS[u.item]))); a_call[u.bb] = None; used = True
+            if not used: sites.append((c.bb, 'unrecognised-use-of-the-ordering'))
+    for bi, st in b.stmts():
+        rv = st['rv']
+        if bi in blocks and rv['k'] == 'bin' and rv['op'] in BIN_TESTS and rv.get('ty') == 'f64' and not st['dst']['p']:
+            x, y = who(rv['ops'][0]), who(rv['ops'][1])
+            if x[0] is None and y[0] is None: continue
+            sites.append((bi, verdict(x, y, BIN_TESTS[rv['op']]))); a_stmt[id(st)] = None
+    tests = sense_tests(ctx, b)
+    rows = by_sense(ctx, b, sites, tests)
+    sense_ok = bool(tests) and all(ctx.S.slice_operand(b, t[4]).has_field(SS, 'sense') for t in tests)
+    # the incumbent is replaced exactly when it is empty or the comparison says so
+    arms = [(sb, m, els) for sb, m, els in T.option_arms(b, inc) if sb in blocks]
+    first = bool(arms); iff = bool(arms) and bool(sites)
+    for sb, m, els in arms:
+        n_bb = m.get(0, els); s_bb = m.get(1, els)
+        first = first and header not in reach_x(b, [n_bb], stop=U)
+        no = reach_x(b, [s_bb], stop={header}, assume_stmt={k: False for k in a_stmt}, assume_call={k: False for k in a_call})
+        yes = reach_x(b, [s_bb], stop=U, assume_stmt={k: True for k in a_stmt}, assume_call={k: True for k in a_call})
+        iff = iff and not (no & U) and header not in yes
+    ctx.check(first, R + '/first-candidate-taken', 'T-BRANCHFX', b.name, 'an empty incumbent is not always replaced by the candidate', site)
+    ctx.check(iff, R + '/replaced-iff-better', 'T-BRANCHFX', b.name, 'the incumbent is not replaced exactly when the comparison with the candidate says so', site)
+    return rows, sense_ok
+
+
 def best_rules(ctx):
     R = 'C15.best'
     b = ctx.method(R + '/anchor', SS, 'best')
     if b is None: return
-    sel = [c for c in b.calls if c.item in ('min_by', 'max_by') and 'Iterator' in (c.trait or '')]
-    ctx.check(len(sel) == 1, R + '/selection', 'T-BRANCHFX', b.name, 'expected one min_by/max_by selection, found %d' % len(sel), b.site())
-    if len(sel) != 1: return
-    sc = sel[0]
-    cls = [ctx.F.bodies.get(n) for n in ctx.S.slice_operand(b, sc.args[1]).closures]
-    cls = [x for x in cls if x is not None and x.parent == b.name and x.argc == 3]
-    ctx.check(len(cls) == 1, R + '/comparator', 'T-BRANCHFX', b.name, 'comparator closure not found', b.site(sc.bb))
-    for cb in cls:
-        ctx.fn(cb)
-        rows = {}
-        for c in cb.calls:
-            if c.item in ('eq', 'ne') and re.search(r'instance::Sense$', c.self_ty or ''):
-                vs = [enum_variant_of_operand(ctx, cb, a) for a in c.args]
-                v = [x.split('::')[-1] for x in vs if x and 'Sense::' in x]
-                if not v: continue
-                for g in T.guards_from_call(cb, c):
-                    yes, no = (g.true_bb, g.false_bb) if c.item == 'eq' else (g.false_bb, g.true_bb)
-                    for side, bb in ((v[0], yes), ('not-' + v[0], no)):
-                        reg = T.reach_cp(cb, [bb]) - T.reach_cp(cb, [no if bb == yes else yes])
-                        for x in cb.calls:
-                            if x.bb in reg and x.item in ('total_cmp', 'partial_cmp', 'cmp'):
-                                a0 = T.strip_wrappers(T.expr(cb, x.args[0])); a1 = T.strip_wrappers(T.expr(cb, x.args[1]))
-                                def arg_index(e):
-                                    pl = [y for y in T.expr_walk(e) if y[0] == 'place' and y[1] in (2, 3)]
-                                    return pl[0][1] if pl else None
-                                rows[side] = (x.item, arg_index(a0), arg_index(a1), [f for a, f in T.expr_fields(a0) if a == 'tuple'][-1:], [f for a, f in T.expr_fields(a1) if a == 'tuple'][-1:])
-        norm = {}
-        for k, v in rows.items():
-            key = {'Minimize': 'min', 'not-Minimize': 'max', 'Maximize': 'max', 'not-Maximize': 'min'}[k]
-            norm[key] = v
-        want_min = (2, 3) if sc.item == 'min_by' else (3, 2)
-        ok = set(norm) == {'min', 'max'} and norm['min'][1:3] == want_min and norm['max'][1:3] == want_min[::-1] and norm['min'][0] == norm['max'][0] \
-             and norm['min'][3] == ['1'] and norm['min'][4] == ['1'] and norm['max'][3] == ['1'] and norm['max'][4] == ['1']
-        ctx.check(ok, R + '/order-per-sense', 'T-BRANCHFX', cb.name,
-                  'with %s the comparator must be cmp(a,b) for Minimize and cmp(b,a) for Maximize on the objective values; found %s' % (sc.item, norm), cb.site(), table=str(norm))
-        # the sense compared is the sample set's own
-        s = ctx.S.slice_operand(b, sc.args[1])
-        ctx.check(s.has_field(SS, 'sense'), R + '/sense-of-set', 'T-CARRY', b.name, 'comparator does not use self.sense', b.site(sc.bb))
-    errflow_calls(ctx, R + '/none-is-error', b, [sc] if b.locals[sc.dst['l']].startswith('std::option::Option') else [], 'no sample selected')
-    # result of the selection: the id (.0) of the selected pair
-    for e, k, st in b.ret_assignments():
-        pass
     rs = ctx.S.backslice(b, [0])
-    ctx.check(sc in rs.call_objs, R + '/returns-selected', 'T-CARRY', b.name, 'the selected sample is not returned', b.site())
-    maps = [c for c in b.calls if c.item == 'map' and 'Option' in c.name and sc in ctx.S.slice_operand(b, c.args[0]).call_objs]
-    okid = False
-    for c in maps:
-        for cn in ctx.S.slice_operand(b, c.args[1]).closures:
-            cb = ctx.F.bodies.get(cn)
-            if cb is not None:
+    loops = T.for_loops(b)
+    # ---- the selection: a min_by / max_by call, or a loop with an incumbent
+    sel = [c for c in b.calls if c.item in ('min_by', 'max_by') and 'Iterator' in (c.trait or '') and c in rs.call_objs]
+    incs = [(lo, l, nones, somes) for lo in loops for l, nones, somes in incumbents(b, lo) if l in rs.locals]
+    ctx.check(bool(sel) != bool(incs) and len(incs) <= 1, R + '/selection', 'T-BRANCHFX', b.name,
+              'no selection of the best candidate recognised (min_by / max_by call, or loop keeping an incumbent): %d calls, %d loops' % (len(sel), len(incs)), b.site())
+    if bool(sel) == bool(incs) or len(incs) > 1: return
+    if sel:
+        rows, sense_ok, sel_bbs = selection_by_call(ctx, R, b, sel)
+        src_ops = [sc.args[0] for sc in sel]; results = [sc.dst['l'] for sc in sel]
+        errflow_ps(ctx, R + '/none-is-error', b, [sc for sc in sel if b.locals[sc.dst['l']].startswith('std::option::Option')], 'no sample selected')
+        sel_loop = None
+    else:
+        lo, inc, nones, somes = incs[0]
+        rows, sense_ok = selection_by_loop(ctx, R, b, lo, inc, somes)
+        src_ops = [lo[0].args[0]]; results = [inc]; sel_loop = lo
+        # what happens to the incumbent after the loop: None must end in an Err-exit
+        P = PathSensitive(b); bad = []; seen_use = False
+        for kind, bi, x in b.uses.get(inc, ()):
+            if bi in lo[4]: continue
+            if kind == 'stmt' and x['rv']['k'] == 'use':
+                o = x['rv']['ops'][0]
+                if o['k'] in ('copy', 'move') and o['pl']['l'] == inc and not o['pl']['p'] and not x['dst']['p']:       # moved as a whole: follow it
+                    seen_use = True; bad += [h for k, h in T.errflow(P, x['dst']['l']) if k == 'bad']
+                # else: payload extraction, dominated by a discriminant test
+            elif kind == 'stmt' and x['rv']['k'] == 'discr':
+                seen_use = True
+                for k3, b3, sw in b.uses.get(x['dst']['l'], ()):
+                    if k3 == 'switch' and reach_x(b, [{v: t for v, t in sw['ts']}.get(0, sw['else'])]) & b.strict_ok_exits(): bad.append('None side of match reaches an Ok-exit')
+            elif kind == 'call':
+                seen_use = True
+                if T.ERR_ADAPTORS.search(x.name): bad += [h for k, h in T.errflow(P, x.dst['l']) if k == 'bad']
+                else: bad.append('passed to ' + x.name[:60])
+        ctx.check(seen_use and not bad, R + '/none-is-error', 'T-ERRFLOW', b.name, 'no sample selected: %s' % ('; '.join(sorted(set(bad))) or 'the incumbent is not used after the loop'), b.site(lo[0].bb))
+    ctx.check(rows == {'min': 'smaller', 'max': 'larger'}, R + '/order-per-sense', 'T-BRANCHFX', b.name,
+              'the selection must prefer the smaller objective for Minimize and the larger one otherwise; found %s' % rows, b.site(), table=str(rows))
+    ctx.check(sense_ok, R + '/sense-of-set', 'T-CARRY', b.name, 'the sense tested is not self.sense', b.site())
+    ctx.check(all(l in rs.locals for l in results), R + '/returns-selected', 'T-CARRY', b.name, 'the selected sample is not returned', b.site())
+    # ---- the id (first component) of the selected pair is what is returned
+    ids = []; others = []
+    for c in b.calls:
+        # opt.map(|(id, _)| id)
+        if c.item == 'map' and 'Option' in c.name and c in rs.call_objs and any(l in ctx.S.slice_operand(b, c.args[0]).locals for l in results):
+            for cn in ctx.S.slice_operand(b, c.args[1]).closures:
+                cb = ctx.F.bodies.get(cn)
+                if cb is None: continue
                 for bi, st in cb.stmts():
-                    if st['dst']['l'] == 0 and st['rv']['k'] == 'use':
+                    if st['dst']['l'] == 0 and not st['dst']['p'] and st['rv']['k'] == 'use':
                         fs = [f for a, f in T.expr_fields(T.expr(cb, st['rv']['ops'][0])) if a == 'tuple']
-                        okid = fs[-1:] == ['0']
-    ctx.check(okid, R + '/returns-id', 'T-CARRY', b.name, 'the id (first component) of the selected pair is not what is returned', b.site())
-    # objective lookup for every candidate id, missing => error; sense conversion error propagates
-    gets = [c for cb in [b] + ctx.F.closures_of(b) for c in cb.calls if c.item == 'get' and c.path.endswith('SampledValues>::get')]
-    ctx.check(len(gets) == 1, R + '/objective-lookup', 'T-ERRFLOW', b.name, 'expected one objectives.get(id), found %d' % len(gets), b.site())
-    for cb in [b] + ctx.F.closures_of(b):
-        for c in cb.calls:
-            if c.item == 'get' and c.path.endswith('SampledValues>::get'):
-                errflow_calls(ctx, R + '/missing-objective-is-error', cb, [c], 'missing objective'); ctx.fn(cb)
+                        (ids if fs[-1:] == ['0'] else others).append(c.bb)
+    for bi, st in b.stmts():
+        # let Some((id, _)) = best else ..  /  match best { Some((id, _)) => id, .. }
+        rv = st['rv']
+        if rv['k'] == 'use' and not st['dst']['p'] and st['dst']['l'] in rs.locals and rv['ops'][0]['k'] in ('copy', 'move') and rv['ops'][0]['pl']['l'] in results:
+            fs = [f for a, f in fields_of_place(rv['ops'][0]['pl']) if a == 'tuple']
+            if fs: (ids if fs[-1:] == ['0'] else others).append(bi)
+    if ids and not others: ctx.ok(R + '/returns-id', 'T-CARRY', b.site(ids[0]))
+    elif others: ctx.bad(R + '/returns-id', 'T-CARRY', b.name, 'the id (first component) of the selected pair is not what is returned', b.site(others[0]))
+    else: ctx.undecided(R + '/returns-id', 'T-CARRY', b.site(), 'how the id is taken out of the selected pair is not recognised; that the selected pair flows into the u64 result is decided (returns-selected)')
+    # ---- objective lookup for every candidate id, missing => error; sense conversion error propagates
+    gets = [c for c in b.calls if c.item == 'get' and c.path.endswith('SampledValues>::get')]
+    ctx.check(bool(gets), R + '/objective-lookup', 'T-ERRFLOW', b.name, 'no objectives.get(id)', b.site())
+    id_loops = []
+    for g in gets:
+        inside = [lo for lo in loops if g.bb in lo[4]]
+        lo = min(inside, key=lambda x: len(x[4])) if inside else None
+        ok = lo is not None and 2 in ctx.S.slice_operand(b, lo[0].args[0]).params and lo[0] in ctx.S.slice_operand(b, g.args[1]).call_objs
+        ctx.check(ok, R + '/objective-of-the-candidate', 'T-CARRY', b.name, 'the objective looked up is not that of the candidate id taken from the `ids` argument', b.site(g.bb))
+        if ok:
+            id_loops.append(lo)
+            loop_must(ctx, R + '/every-candidate-looked-up', b, lo, lambda x, g=g: x is g, 'objectives.get(id)')
+        errflow_ps(ctx, R + '/missing-objective-is-error', b, [g], 'missing objective')
     tf = [c for c in b.calls if c.item == 'try_from' and 'Sense' in c.name]
-    errflow_calls(ctx, R + '/invalid-sense-is-error', b, tf, 'invalid sense')
+    errflow_ps(ctx, R + '/invalid-sense-is-error', b, tf, 'invalid sense')
     oc = [c for c in b.calls if c.item == 'objectives']
-    errflow_calls(ctx, R + '/missing-objectives-is-error', b, oc, 'missing objectives')
-    # all candidates take part: the iterator given to best() is mapped and collected without filtering
-    s = ctx.S.slice_operand(b, sc.args[0])
-    restr = sorted({x.item for x in s.call_objs if x.item in RESTRICTING and 'Iterator' in (x.trait or '')})
-    ctx.check(2 in s.params and not restr, R + '/all-candidates', 'T-LOOPMUST', b.name, 'not every candidate id takes part in the selection %s' % restr, b.site())
+    errflow_ps(ctx, R + '/missing-objectives-is-error', b, oc, 'missing objectives')
+    # ---- all candidates take part: what is selected from is the ids loop itself, or a collection every id was pushed to
+    probs = []
+    for op in src_ops:
+        s = ctx.S.slice_operand(b, op)
+        restr = sorted({x.item for x in s.call_objs if x.item in RESTRICTING and 'Iterator' in (x.trait or '')})
+        if restr: probs.append('restricted by %s' % restr)
+        if 2 not in s.params: probs.append('does not derive from the `ids` argument')
+        if sel_loop is not None and sel_loop in id_loops: continue
+        feeders = [(lo, [c for c in b.calls if c.bb in lo[4] and c.item in ('push', 'insert', 'push_back') and c in s.call_objs]) for lo in id_loops]
+        feeders = [(lo, pushes) for lo, pushes in feeders if pushes]
+        if not feeders: probs.append('no collection filled from the candidate ids')
+        for lo, pushes in feeders:
+            if not T.must_pass(b, lo[2], {lo[1]}, {c.bb for c in pushes}): probs.append('a candidate can be skipped before it is collected')
+            if not all(any(g in ctx.S.slice_operand(b, c.args[-1]).call_objs for g in gets) for c in pushes): probs.append('the collected value is not the looked-up objective')
+    ctx.check(not probs, R + '/all-candidates', 'T-LOOPMUST', b.name, 'not every candidate id takes part in the selection: %s' % '; '.join(probs), b.site())
+
+
+# ------------------------------------------------------------------------------------- feasible id sets
+def keeps_true_flags(ctx, rule, b):
+    """the returned set gets exactly the keys of the map whose flag is true:
+    in the loop over the map, with every read of `item.1` assumed false no insertion is reachable, with
+    every read assumed true every iteration inserts, and what is inserted is `item.0`"""
+    found = None; why = 'no loop over (id, flag) pairs inserting into the result'
+    for lo in T.for_loops(b):
+        nxt, header, some_bb, none_bb, blocks = lo
+        ins = [c for c in b.calls if c.bb in blocks and c.item in ('insert', 'push') and re.search(r'(BTreeSet|HashSet|Vec)::<.*>::(insert|push)$', c.name)]
+        if not ins: continue
+        flags = [st for bi, st in b.stmts() if bi in blocks and not st['dst']['p'] and st['rv']['k'] == 'use' and b.locals[st['dst']['l']].strip() == 'bool'
+                 and st['rv']['ops'][0]['k'] in ('copy', 'move') and item_fields(b, lo, st['rv']['ops'][0]) == ['1']]
+        if not flags: why = 'the flag of the pair is never read'; continue
+        U = {c.bb for c in ins}
+        no = reach_x(b, [some_bb], stop={header}, assume_stmt={id(st): False for st in flags})
+        yes = reach_x(b, [some_bb], stop=U, assume_stmt={id(st): True for st in flags})
+        probs = []
+        if no & U: probs.append('an id whose flag is false can be inserted')
+        if header in yes: probs.append('an id whose flag is true can be skipped')
+        if not all(item_fields(b, lo, c.args[-1]) == ['0'] for c in ins): probs.append('what is inserted is not the id of the pair')
+        s = ctx.S.slice_operand(b, nxt.args[0])
+        restr = sorted({x.item for x in s.call_objs if x.item in RESTRICTING and 'Iterator' in (x.trait or '')})
+        if restr: probs.append('the pairs are restricted by %s' % restr)
+        rs = ctx.S.backslice(b, [0])
+        if not all(c in rs.call_objs for c in ins): probs.append('the set inserted into is not the result')
+        found = probs
+    ctx.check(found == [], rule, 'T-BRANCHFX', b.name, 'does not keep exactly the ids whose flag is true: %s' % ('; '.join(found) if found else why), b.site())
 
 
 def pair_rules(ctx):
@@ -148,22 +509,12 @@ def pair_rules(ctx):
         ok = inner in names and other not in names and (outer is None or outer in names)
         ctx.check(ok, R + '/%s/uses-%s' % (fn, inner), 'T-CARRY', b.name, '%s must be built from %s%s (calls: %s)' % (fn, inner, ' through ' + outer if outer else '', sorted(set(names))), b.site())
         if outer == 'get':
-            errflow_calls(ctx, R + '/%s/error' % fn, b, [c for c in b.calls if c.item == inner], 'no feasible sample')
+            errflow_ps(ctx, R + '/%s/error' % fn, b, [c for c in b.calls if c.item == inner], 'no feasible sample')
         if outer is None:
-            # keeps exactly the ids whose flag is true
-            okf = False
-            for cb in ctx.F.closures_of(b):
-                for c in cb.calls:
-                    if c.item == 'then_some':
-                        flag = T.expr(cb, c.args[0]); val = T.expr(cb, c.args[1])
-                        f0 = [f for a, f in T.expr_fields(flag) if a == 'tuple']; f1 = [f for a, f in T.expr_fields(val) if a == 'tuple']
-                        okf = f0[-1:] == ['1'] and f1[-1:] == ['0'] and not any(x[0] == 'un' for x in T.expr_walk(flag))
-                for bi, st in cb.stmts():
-                    pass
-            s = ctx.S.backslice(b, [0])
-            ctx.check(okf and s.has_call(r'Iterator>::filter_map'), R + '/%s/keeps-true-flags' % fn, 'T-BRANCHFX', b.name, 'does not keep exactly the ids whose flag is true', b.site())
+            keeps_true_flags(ctx, R + '/%s/keeps-true-flags' % fn, b)
 
 
+# --------------------------------------------------------------------------------- legacy field fallback
 def legacy_rules(ctx):
     R = 'C15.legacy'
     want = {'feasible_relaxed': ('feasible', 'feasible_relaxed'), 'feasible_unrelaxed': ('feasible_unrelaxed', 'feasible')}
@@ -171,22 +522,34 @@ def legacy_rules(ctx):
         b = ctx.method(R + '/%s/anchor' % fn, SS, fn)
         if b is None: continue
         emp = [c for c in b.calls if c.item == 'is_empty' and (SS, 'feasible_relaxed') in T.access_path(b, c.args[0])[0]]
-        ok = False; got = None
-        for c in emp:
-            for g in T.guards_from_call(b, c):
-                def ret_field(bb, other):
-                    reg = T.reach_cp(b, [bb]) - T.reach_cp(b, [other])
-                    for bi, st in b.stmts():
-                        if bi in reg and st['dst']['l'] == 0 and st['rv']['k'] in ('ref', 'use'):
-                            pl = st['rv'].get('pl') or st['rv']['ops'][0].get('pl')
-                            fs = T.access_path(b, {'k': 'copy', 'pl': pl})[0] if pl else []
-                            if fs: return fs[-1][1]
-                    return None
-                got = (ret_field(g.true_bb, g.false_bb), ret_field(g.false_bb, g.true_bb))
-                ok = got == (when_empty, otherwise)
+        # which field is returned when `self.feasible_relaxed.is_empty()` is true / false: probe both values
+        def field_of(pl, r, depth=6):
+            # field of self a reference points into; a local assigned in several branches (`match` / `if` as an
+            # expression) is resolved through the assignments that are reachable under the probe
+            fs, root, _ = T.access_path(b, {'k': 'copy', 'pl': pl})
+            if fs: return {fs[-1][1]}
+            out = set()
+            if depth > 0 and root is not None and root > b.argc:
+                for k, bi, d in b.defs_of(root):
+                    if bi not in r: continue
+                    if k == 'stmt' and not d['dst']['p'] and d['rv']['k'] in ('ref', 'use'):
+                        pl2 = d['rv'].get('pl') or d['rv']['ops'][0].get('pl')
+                        out |= field_of(pl2, r, depth - 1) if pl2 else {None}
+                    else: out.add(None)
+            return out or {None}
+        def ret_fields(value):
+            r = reach_x(b, [0], assume_call={c.bb: value for c in emp})
+            out = set()
+            for bi, st in b.stmts():
+                if bi in r and st['dst']['l'] == 0 and not st['dst']['p'] and st['rv']['k'] in ('ref', 'use'):
+                    pl = st['rv'].get('pl') or st['rv']['ops'][0].get('pl')
+                    out |= field_of(pl, r) if pl else {None}
+            return sorted(out, key=str)
+        got = (ret_fields(True), ret_fields(False)) if emp else None
+        ok = got == ([when_empty], [otherwise])
         ctx.check(ok, R + '/%s/fallback-table' % fn, 'T-BRANCHFX', b.name, 'must return &%s when feasible_relaxed is empty and &%s otherwise; found %s' % (when_empty, otherwise, got), b.site(), table=str(got))
 
 
 def check(ctx):
     min_rules(ctx); best_rules(ctx); pair_rules(ctx); legacy_rules(ctx)
-    ctx.floor('C15.min', 7); ctx.floor('C15.best', 10); ctx.floor('C15.pair', 8); ctx.floor('C15.legacy', 2)
+    ctx.floor('C15.min', 7); ctx.floor('C15.best', 15); ctx.floor('C15.pair', 10); ctx.floor('C15.legacy', 2)
